@@ -704,6 +704,13 @@ def flatten_translation(ctx, rule):
                 continue
             if has_fact(b, bb, r, *opt_fact("none", "SourceMapSection::get_sourcemap(section)")):
                 skipping.append(ctx.site(b, bb))
+    # (whatever the spelling of the test: every iteration of the section loop goes on to that section's tokens or fails)
+    tok_loops = [bi for bi, t in b.calls() if q.shape(b.expr_of_call(t), r) == "IntoIterator::into_iter(SourceMap::tokens(map))"]
+    if heads and tok_loops:
+        hb = b.blocks[heads[0]]["term"].get("t")
+        arms = [tb for v, tb in b.blocks[hb]["term"].get("arms", []) if v == 1] if hb is not None and b.blocks[hb]["term"]["k"] == "switch" else []
+        if arms and not loop_passes(b, arms[0], heads[0], tok_loops):
+            skipping.append("a path through the section loop that reaches the next section without visiting the tokens")
     ctx.check(bool(heads) and not skipping, rule, fn, "unresolved:no-skip", "no unresolved section is skipped: once a section is known to have no embedded map, flatten does not go on to the next section", detail=str(skipping[:3]))
     it = named(b, lambda s: s == "IntoIterator::into_iter(SourceMapIndex::sections(arg1))")
     it2 = [s for l in sorted(b.var_names) for s, _, _ in q.def_shapes(b, l, r) if s == "IntoIterator::into_iter(SourceMap::tokens(map))"]
